@@ -15,6 +15,21 @@ if hasattr(sys, "set_int_max_str_digits"):
 VERIF = os.path.dirname(os.path.dirname(os.path.abspath(__file__)))
 REPO = os.environ.get("VERIF_REPO", "/repo")
 CACHE = os.path.join(VERIF, ".cache")
+_SCRATCH = []
+
+
+def rundir(name):
+    """scratch directory of THIS process for case/output files (two checks - or two tiers of one check - may run at the same time;
+    they must not write each other's files).  Removed at exit.  Shared, content-addressed caches stay in .cache/run/<name>."""
+    import atexit
+    import shutil
+    d = os.path.join(CACHE, "run", name, "p%d" % os.getpid())
+    if d not in _SCRATCH:
+        os.makedirs(d, exist_ok=True)
+        _SCRATCH.append(d)
+        atexit.register(lambda: shutil.rmtree(d, ignore_errors=True))
+    return d
+
 COQ = os.path.join(VERIF, "coq")
 GUARD = "meshless_voro_verif"
 NPROC = os.cpu_count() or 4
@@ -185,13 +200,33 @@ def coq_gate():
     return problems
 
 
+class build_lock:
+    """builds (make in coq/, the OCaml runner, cargo) are serialised across processes: checks may run at the same time"""
+    def __init__(self, name="build"):
+        os.makedirs(CACHE, exist_ok=True)
+        self.path = os.path.join(CACHE, name + ".lock")
+
+    def __enter__(self):
+        import fcntl
+        self.f = open(self.path, "w")
+        fcntl.flock(self.f, fcntl.LOCK_EX)
+        return self
+
+    def __exit__(self, *a):
+        import fcntl
+        fcntl.flock(self.f, fcntl.LOCK_UN)
+        self.f.close()
+
+
 def build_coq(timeout=3000):
     """Full .vo build of the development (make is a no-op when nothing changed)."""
     global _coq_built
     if _coq_built is not None:
         return _coq_built
-    rc, out, dt = sh("coq_makefile -f _CoqProject -o Makefile > /dev/null && make -j%d" % NPROC,
-                     cwd=COQ, timeout=timeout, shell=True)
+    with build_lock("coq"):
+        rc, out, dt = sh("coq_makefile -f _CoqProject -o Makefile.tmp$$ > /dev/null && (cmp -s Makefile.tmp$$ Makefile || cp Makefile.tmp$$ Makefile); "
+                         "rm -f Makefile.tmp$$ Makefile.tmp$$.conf; make -j%d" % NPROC,
+                         cwd=COQ, timeout=timeout, shell=True)
     ok = rc == 0
     if not ok:
         log(out[-4000:])
@@ -259,8 +294,7 @@ def properties_gate(pid):
 def coq_eval(lines, name, timeout=900):
     """Evaluate vm_compute queries inside Coq. `lines` is the body of a .v file (after the
     imports); returns coqc stdout."""
-    d = os.path.join(CACHE, "coqeval")
-    os.makedirs(d, exist_ok=True)
+    d = rundir("coqeval")
     p = os.path.join(d, name + ".v")
     with open(p, "w") as f:
         f.write(lines)
@@ -326,14 +360,15 @@ def build_runner():
     os.makedirs(odir, exist_ok=True)
     exe = os.path.join(odir, "runner")
     srcs = [os.path.join(COQ, "model.ml"), os.path.join(COQ, "model.mli"), os.path.join(VERIF, "ocaml", "runner.ml")]
-    if os.path.exists(exe) and all(os.path.getmtime(s) <= os.path.getmtime(exe) for s in srcs):
-        return exe
-    for s in srcs:
-        sh(["cp", s, odir])
-    rc, out, _ = sh("ocamlfind ocamlopt -package zarith -linkpkg -inline 100 -unsafe model.mli model.ml runner.ml -o runner",
-                    cwd=odir, shell=True, timeout=900)
-    if rc != 0:
-        raise BuildError("ocaml runner build failed", out)
+    with build_lock("ocaml"):
+        if os.path.exists(exe) and all(os.path.getmtime(s) <= os.path.getmtime(exe) for s in srcs):
+            return exe
+        for s in srcs:
+            sh(["cp", s, odir])
+        rc, out, _ = sh("ocamlfind ocamlopt -package zarith -linkpkg -inline 100 -unsafe model.mli model.ml runner.ml -o runner.new && mv runner.new runner",
+                        cwd=odir, shell=True, timeout=900)
+        if rc != 0:
+            raise BuildError("ocaml runner build failed", out)
     return exe
 
 
